@@ -227,15 +227,17 @@ fn ex_case(tier: Tier) -> BoxedStrategy<ExCase> {
     let alpha = prop_oneof![
         5 => 2usize..=5,
         3 => 6usize..=30,
-        2 => 31usize..=tier.pick(120, 300),
+        // the wavelet psi answers predecessor queries itself only when 32 x |range| < K - 1 and the
+        // range spans two context rows: a one-symbol needle occurring twice among > 65 symbols
+        2 => 31usize..=tier.pick(300, 500),
     ];
     (alpha, 0u8..3, 1usize..=3, any::<bool>()).prop_flat_map(move |(a, fam, ndocs, words)| {
-        let max_tokens = if a > 30 { 40 } else { 36 };
+        let max_tokens = if a <= 30 { 36 } else if words { 40 } else { 130 };
         let doc = (
             prop::collection::vec((any::<u16>(), any::<u16>()), 1..=max_tokens),
             prop::collection::vec(any::<u16>(), 0..=10),
             0u8..4,
-            prop::collection::vec(any::<bool>(), 320),
+            prop::collection::vec(any::<bool>(), 330),
         );
         (
             Just((a, fam, words)),
@@ -364,6 +366,12 @@ impl Property for Exemplars {
             (n, n)
         };
         let top = want.values().copied().max().unwrap_or(0);
+        if c.pairs.iter().any(|(_, e)| {
+            let n = count_all(&c.docs[..1], &[*e]);
+            c.docs.len() == 1 && n >= 2 && 32 * n + 1 < k.len()
+        }) {
+            o.label("end-marker-occurs>=2-times-and-32x-fewer-than-symbols(wavelet-predecessor-path)");
+        }
         o.label(format!("expected-exemplars:{}", match want.len() { 0 => "0", 1 => "1", 2..=9 => "2-9", 10..=99 => "10-99", _ => ">=100" }));
         o.label(format!("top-count:{}", match top { 0 => "0", 1 => "1", 2..=4 => "2-4", _ => ">=5" }));
         o.nontrivial = want.len() >= 2 && top >= 2;
